@@ -202,6 +202,10 @@ func (s *Protocol) InvokeTimeout(pkg []byte) []byte {
 	reqPackage := requestf.RequestPacket{}
 	is := codec.NewReader(pkg[4:])
 	reqPackage.ReadFrom(is)
+	if reqPackage.CPacketType == basef.TARSONEWAY {
+		// the caller of a one-way request expects no response, a timed out one included
+		return nil
+	}
 	rspPackage.IVersion = reqPackage.IVersion
 	rspPackage.CPacketType = reqPackage.CPacketType
 	rspPackage.IRequestId = reqPackage.IRequestId
